@@ -157,4 +157,54 @@ theorem gs_execCmd (h : GS fr df w) (hes : EndSep w) (hsep : CondSep w) (ht : Ti
   | condRemove c q => exact fun _ => gs_cmd_condRemove h c q
   | _ => exact fun _ => hin trivial
 
+/-! ### all frames -/
+
+/-- the resumption of any suspended call keeps homogeneity and the grant invariant; a deficit of one at the object end
+    the call was waiting on (its own grant has just been taken off the event queue) is settled -/
+theorem gs_resumeFrame (h : GS fr df w) (hes : EndSep w) (hsep : CondSep w) (f : Frame) (hfr : fr p = some f)
+    (hlt : p < w.procs.size) (sig : Int) (hq : sig = sigSuccess → Quiet w p) (hfo : ∀ k, f = .hold k → NG w k)
+    (hdf : ∀ d, frameDemand f ≠ some d → df d ≤ df' d) (hdf1 : ∀ d, frameDemand f = some d → df d ≤ df' d + 1)
+    (hdf0 : sig ≠ sigSuccess → ∀ d, df d ≤ df' d) :
+    (resumeFrame (w.modProc p fun y => { y with blocked := none }) p f sig).1.fault = none →
+    GH df' (resumeFrame (w.modProc p fun y => { y with blocked := none }) p f sig).1 := by
+  have hall : frameDemand f = none → ∀ d, df d ≤ df' d := fun hn d => hdf d (by rw [hn]; simp)
+  have hin : (f = .yield ∨ (∃ q, f = .waitProc q) ∨ (∃ k, f = .waitEvent k) ∨ (∃ k, f = .hold k ∧ NG w k)) → frameDemand f = none →
+      GH df' (resumeFrame (w.modProc p fun y => { y with blocked := none }) p f sig).1 := by
+    intro hf hn
+    have := h.gh.inert h.ginv.ei (inert_resumeFrame (p := p) f sig h.ginv.ei hf)
+    exact ⟨this.1, this.2.mono (hall hn)⟩
+  cases f with
+  | hold k => exact fun _ => hin (Or.inr (Or.inr (Or.inr ⟨k, rfl, hfo k rfl⟩))) rfl
+  | yield => exact fun _ => hin (Or.inl rfl) rfl
+  | waitProc q => exact fun _ => hin (Or.inr (Or.inl ⟨q, rfl⟩)) rfl
+  | waitEvent k => exact fun _ => hin (Or.inr (Or.inr (Or.inl ⟨k, rfl⟩))) rfl
+  | acquire r =>
+    exact fun _ => gs_resume_acquire h hes hsep hfr hlt sig hq (fun d hd => hdf d (by simp [frameDemand]; exact fun e => hd e.symm))
+      hdf0
+  | pool pl rem ini pre =>
+    exact gs_resume_pool h hes hsep hfr hlt sig hq (fun d hd => hdf d (by simp [frameDemand]; exact fun e => hd e.symm))
+      (hdf1 _ rfl) hdf0
+  | bufGet b rem got =>
+    exact fun _ => gs_resume_bufGet h hes hsep hfr hlt sig hq (fun d hd => hdf d (by simp [frameDemand]; exact fun e => hd e.symm))
+      (hdf1 _ rfl) hdf0
+  | bufPut b rem left =>
+    exact fun _ => gs_resume_bufPut h hes hsep hfr hlt sig hq (fun d hd => hdf d (by simp [frameDemand]; exact fun e => hd e.symm))
+      (hdf1 _ rfl) hdf0
+  | oqGet q =>
+    exact fun _ => gs_resume_oqGet h hes hsep hfr hlt sig hq (fun d hd => hdf d (by simp [frameDemand]; exact fun e => hd e.symm))
+      (hdf1 _ rfl) hdf0
+  | oqPut q obj =>
+    exact fun _ => gs_resume_oqPut h hes hsep hfr hlt sig hq (fun d hd => hdf d (by simp [frameDemand]; exact fun e => hd e.symm))
+      (hdf1 _ rfl) hdf0
+  | pqGet k =>
+    exact gs_resume_pqGet h hes hsep hfr hlt sig hq (fun d hd => hdf d (by simp [frameDemand]; exact fun e => hd e.symm))
+      (hdf1 _ rfl) hdf0
+  | pqPut k obj pri v =>
+    exact gs_resume_pqPut h hes hsep hfr hlt sig hq (fun d hd => hdf d (by simp [frameDemand]; exact fun e => hd e.symm))
+      (hdf1 _ rfl) hdf0
+  | condWait c =>
+    intro _
+    have := gs_resume_condWait h hfr sig hq
+    exact ⟨this.1, this.2.mono (hall rfl)⟩
+
 end CimbaModel.Sim.S3
